@@ -3,7 +3,7 @@
    The model (Model/Subs.v) is tied to aiohomekit/controller/ip/pairing.py, abstract.py and
    ip/connection.py by the correspondence check harness/c12.py (real IpPairing on the virtual loop).
 
-   [run raises h] executes an arbitrary history h (any interleaving of Subscribe / Unsubscribe
+   [run raises acts h] executes an arbitrary history h (any interleaving of Subscribe / Unsubscribe
    with per-aid reply scripts, AddL / DelL, ConnUp with a reply script for the re-subscribe,
    ConnDown, EventMsg) from the freshly constructed pairing; [raises l e] says whether listener l
    raises when called with e.  All theorems hold for every h, raises and script: no bound. *)
@@ -12,40 +12,40 @@ From AHK Require Import Model.Subs Proofs.Subs Proofs.SubsStep Proofs.SubsMain.
 Import ListNotations.
 
 (* the subscription set and the listener collection are sets (no duplicates), always *)
-Theorem state_is_sets : forall raises h,
-    NoDup (subs (fst (run raises h))) /\ NoDup (lst (fst (run raises h))).
+Theorem state_is_sets : forall raises acts h,
+    NoDup (subs (fst (run raises acts h))) /\ NoDup (lst (fst (run raises acts h))).
 Proof. exact main_invariant. Qed.
 
 (* After EVERY history that leaves the pairing disconnected and still in push mode, a new secure
    session whose re-subscribe is not itself cut off (sup s' = true; see resubscribe_cut_off_iff)
    asks the accessory - on that session, with ev:true - for exactly the subscription set, sends no
    ev:false, tells every registered listener the connection is back exactly once (and nobody else),
-   and leaves the subscription set and the listeners unchanged. *)
-Theorem resubscribe_all : forall raises h rs s' o,
-    let s := fst (run raises h) in
+   and leaves the subscription set unchanged (the listeners: whatever they did to themselves). *)
+Theorem resubscribe_all : forall raises acts h rs s' o,
+    let s := fst (run raises acts h) in
     conn s = false -> sup s = true ->
-    step raises s (ConnUp rs) = (s', o) -> sup s' = true ->
+    step raises acts s (ConnUp rs) = (s', o) -> sup s' = true ->
     (forall c, In c (put_ids true o) <-> In c (subs s))
     /\ put_ids false o = []
     /\ (forall l, In l (lst s) -> calls_of l o = [[]])
     /\ (forall l, ~ In l (lst s) -> calls_of l o = [])
-    /\ conn s' = true /\ subs s' = subs s /\ lst s' = lst s.
+    /\ conn s' = true /\ subs s' = subs s /\ lst s' = reg_after acts s [].
 Proof. exact main_resubscribe_all. Qed.
 
 (* the re-subscribe of a new session is cut off exactly when the accessory answers a request for
    one of the subscribed accessory ids with a cut-off (session lost) or an HTTP 4xx *)
-Theorem resubscribe_cut_off_iff : forall raises s rs,
+Theorem resubscribe_cut_off_iff : forall raises acts s rs,
     conn s = false -> sup s = true ->
-    (sup (fst (step raises s (ConnUp rs))) = false
+    (sup (fst (step raises acts s (ConnUp rs))) = false
      <-> exists a, In a (map fst (subs s)) /\ (reply_for a rs = RDisc \/ reply_for a rs = RHttp4xx)).
 Proof. exact connup_cutoff_l. Qed.
 
 (* in polling fall-back a new session sends no subscription request, but every listener is still
    told that the connection is back *)
-Theorem reconnect_in_fallback : forall raises h rs s' o,
-    let s := fst (run raises h) in
+Theorem reconnect_in_fallback : forall raises acts h rs s' o,
+    let s := fst (run raises acts h) in
     conn s = false -> sup s = false ->
-    step raises s (ConnUp rs) = (s', o) ->
+    step raises acts s (ConnUp rs) = (s', o) ->
     put_ids true o = [] /\ put_ids false o = []
     /\ (forall l, In l (lst s) -> calls_of l o = [[]])
     /\ conn s' = true /\ subs s' = subs s /\ sup s' = false.
@@ -57,53 +57,54 @@ Proof. exact main_connup_fallback. Qed.
    30 s / answered with an unparsable body (PutDisc), OR it was answered with an HTTP 4xx
    (Put4xx: HttpErrorResponse is a subclass of AccessoryDisconnectedError; the session stays up).
    An unsubscribe (ev:false) that is cut off never causes the fall-back. *)
-Theorem fallback_only_after_cutoff : forall raises h,
-    sup (fst (run raises h)) = false <->
-    exists ids r, In (OPut true ids r) (snd (run raises h)) /\ (r = PutDisc \/ r = Put4xx).
+Theorem fallback_only_after_cutoff : forall raises acts h,
+    sup (fst (run raises acts h)) = false <->
+    exists ids r, In (OPut true ids r) (snd (run raises acts h)) /\ (r = PutDisc \/ r = Put4xx).
 Proof. exact fallback_iff. Qed.
 
 (* ... and the fall-back is never left again (the flag is not reset by a reconnect) *)
-Theorem fallback_is_permanent : forall raises s e,
-    sup s = false -> sup (fst (step raises s e)) = false.
+Theorem fallback_is_permanent : forall raises acts s e,
+    sup s = false -> sup (fst (step raises acts s e)) = false.
 Proof. exact main_fallback_permanent. Qed.
 
 (* the subscription set is changed by subscribe / unsubscribe only: it survives drops, reconnects
    (also cut-off ones), events and listener changes; subscribe adds exactly its argument;
    unsubscribe removes nothing but (some of) its argument *)
-Theorem subscriptions_survive : forall raises s,
-    (forall rs, subs (fst (step raises s (ConnUp rs))) = subs s)
-    /\ subs (fst (step raises s ConnDown)) = subs s
-    /\ (forall b, subs (fst (step raises s (EventMsg b))) = subs s)
-    /\ (forall l, subs (fst (step raises s (AddL l))) = subs s)
-    /\ (forall l, subs (fst (step raises s (DelL l))) = subs s).
+Theorem subscriptions_survive : forall raises acts s,
+    (forall rs, subs (fst (step raises acts s (ConnUp rs))) = subs s)
+    /\ subs (fst (step raises acts s ConnDown)) = subs s
+    /\ (forall b, subs (fst (step raises acts s (EventMsg b))) = subs s)
+    /\ (forall l, subs (fst (step raises acts s (AddL l))) = subs s)
+    /\ (forall l, subs (fst (step raises acts s (DelL l))) = subs s).
 Proof. exact main_subs_survive. Qed.
 
-Theorem subscribe_adds : forall raises s cs rs c,
-    In c (subs (fst (step raises s (Subscribe cs rs)))) <-> In c (subs s) \/ In c cs.
+Theorem subscribe_adds : forall raises acts s cs rs c,
+    In c (subs (fst (step raises acts s (Subscribe cs rs)))) <-> In c (subs s) \/ In c cs.
 Proof. exact subs_subscribe. Qed.
 
-Theorem unsubscribe_removes_only_named : forall raises s cs rs c,
-    (In c (subs (fst (step raises s (Unsubscribe cs rs)))) -> In c (subs s))
-    /\ (In c (subs s) -> ~ In c cs -> In c (subs (fst (step raises s (Unsubscribe cs rs))))).
+Theorem unsubscribe_removes_only_named : forall raises acts s cs rs c,
+    (In c (subs (fst (step raises acts s (Unsubscribe cs rs)))) -> In c (subs s))
+    /\ (In c (subs s) -> ~ In c cs -> In c (subs (fst (step raises acts s (Unsubscribe cs rs))))).
 Proof. exact subs_unsubscribe. Qed.
 
-(* For every event stream bs sent on a live session reached by any history, and every listener:
-   a registered listener's calls are exactly the formatted JSON-bodied messages, each once, in
-   order (empty and non-JSON bodies contribute nothing); an unregistered one gets nothing; the
-   state is unchanged. *)
-Theorem event_once_in_order : forall raises h bs l,
-    let s := fst (run raises h) in
-    conn s = true ->
-    fst (run_from raises s (map EventMsg bs)) = s
-    /\ calls_of l (snd (run_from raises s (map EventMsg bs)))
+(* For every event stream bs sent on a live session reached by any history, and every listener
+   set (listeners that do not touch the registry; the general case is listener_log_exact and
+   delivery_is_reentrancy_safe): a registered listener's calls are exactly the formatted
+   JSON-bodied messages, each once, in order (empty and non-JSON bodies contribute nothing); an
+   unregistered one gets nothing; the state is unchanged. *)
+Theorem event_once_in_order : forall raises acts h bs l,
+    let s := fst (run raises acts h) in
+    quiet acts -> conn s = true ->
+    fst (run_from raises acts s (map EventMsg bs)) = s
+    /\ calls_of l (snd (run_from raises acts s (map EventMsg bs)))
        = if memN l (lst s) then flat_map deliver bs else [].
 Proof. exact main_event_stream. Qed.
 
 (* The complete call log of every listener over every history: the concatenation, over the steps
    at which it was registered, of the empty event for a session coming up and of the formatted
    events for messages arriving on a live session - nothing else, nothing twice. *)
-Theorem listener_log_exact : forall raises h l,
-    calls_of l (snd (run raises h)) = expected_log raises l init h.
+Theorem listener_log_exact : forall raises acts h l,
+    calls_of l (snd (run raises acts h)) = expected_log raises acts l init h.
 Proof. exact main_log_char. Qed.
 
 (* a formatted event is keyed by (aid,iid): keys are distinct, are exactly the keys of the rows,
@@ -117,32 +118,47 @@ Proof. exact main_format. Qed.
 (* Which listeners raise, and when, changes NOTHING but the "exception logged" markers: same
    final state, same requests, same session ends, and every listener (raising or not) has the
    same call log. *)
-Theorem listener_isolation : forall r1 r2 h,
-    fst (run r1 h) = fst (run r2 h)
-    /\ strip (snd (run r1 h)) = strip (snd (run r2 h))
-    /\ (forall l, calls_of l (snd (run r1 h)) = calls_of l (snd (run r2 h)))
-    /\ (forall ev, put_ids ev (snd (run r1 h)) = put_ids ev (snd (run r2 h)))
-    /\ (In OLost (snd (run r1 h)) <-> In OLost (snd (run r2 h))).
+Theorem listener_isolation : forall r1 r2 acts h,
+    fst (run r1 acts h) = fst (run r2 acts h)
+    /\ strip (snd (run r1 acts h)) = strip (snd (run r2 acts h))
+    /\ (forall l, calls_of l (snd (run r1 acts h)) = calls_of l (snd (run r2 acts h)))
+    /\ (forall ev, put_ids ev (snd (run r1 acts h)) = put_ids ev (snd (run r2 acts h)))
+    /\ (In OLost (snd (run r1 acts h)) <-> In OLost (snd (run r2 acts h))).
 Proof. exact main_isolation. Qed.
 
-(* delivering an event never changes the state nor ends the session, whoever raises *)
-Theorem event_never_closes : forall raises s b,
-    fst (step raises s (EventMsg b)) = s /\ ~ In OLost (snd (step raises s (EventMsg b))).
+(* delivering an event never ends the session nor touches the subscriptions / push mode, whoever
+   raises and whatever the listeners do to the registry *)
+Theorem event_never_closes : forall raises acts s b,
+    subs (fst (step raises acts s (EventMsg b))) = subs s
+    /\ sup (fst (step raises acts s (EventMsg b))) = sup s
+    /\ conn (fst (step raises acts s (EventMsg b))) = conn s
+    /\ ~ In OLost (snd (step raises acts s (EventMsg b))).
 Proof. exact main_raise_keeps_session. Qed.
 
+(* in every step after every history, each listener registered when the step begins is told
+   exactly what the step announces (the empty event for a new session, the formatted event for a
+   message on a live session) exactly once, and nobody else is told anything - also when listeners
+   add or remove listeners (or themselves) from inside their callbacks *)
+Theorem delivery_is_reentrancy_safe : forall raises acts h e l,
+    let s := fst (run raises acts h) in
+    calls_of l (snd (step raises acts s e)) = if memN l (lst s) then notif s e else [].
+Proof. exact main_step_calls. Qed.
+
 (* a live session ends only by the peer dropping it or by a request being cut off *)
-Theorem session_ends_only_by_drop : forall raises s e,
-    conn s = true -> conn (fst (step raises s e)) = false ->
-    e = ConnDown \/ exists ev ids, In (OPut ev ids PutDisc) (snd (step raises s e)).
+Theorem session_ends_only_by_drop : forall raises acts s e,
+    conn s = true -> conn (fst (step raises acts s e)) = false ->
+    e = ConnDown \/ exists ev ids, In (OPut ev ids PutDisc) (snd (step raises acts s e)).
 Proof. exact conn_step. Qed.
 
-Theorem empty_and_nonjson_ignored : forall raises s,
-    step raises s (EventMsg BEmpty) = (s, []) /\ step raises s (EventMsg BNonJson) = (s, []).
+Theorem empty_and_nonjson_ignored : forall raises acts s,
+    step raises acts s (EventMsg BEmpty) = (s, []) /\ step raises acts s (EventMsg BNonJson) = (s, []).
 Proof. exact ignored_bodies. Qed.
 
 (* ------------------------------------------------------------------ non-vacuity *)
 Local Open Scope N_scope.
 Definition ex_raises (l : lid) (_ : fevent) : bool := N.eqb l 2.     (* listener 2 always raises *)
+Definition ex_acts (l : lid) (e : fevent) : list (bool * lid) :=      (* listener 1 is one-shot for real events: removes itself, adds 4 *)
+  if N.eqb l 1 then match e with [] => [] | _ => [(false, 1); (true, 4)] end else [].
 Definition ex_hist : list event :=
   [ AddL 1; AddL 2; AddL 3; DelL 3;
     Subscribe [(1, 2); (2, 2)]%N [];                       (* while disconnected *)
@@ -153,34 +169,35 @@ Definition ex_hist : list event :=
     ConnDown ].
 
 (* the hypotheses of resubscribe_all hold after ex_hist, and the new session registers
-   1.2, 1.3 (aid 1) and 2.3 (aid 2), notifying listeners 1 and 2 (2 raises, 3 was removed) *)
+   1.2, 1.3 (aid 1) and 2.3 (aid 2), notifying listeners 2 and 4 (2 raises, 3 was removed by the
+   caller, 1 removed itself and registered 4 from inside the callback of the first real event) *)
 Example c12_nonvacuous_resubscribe :
-  let s := fst (run ex_raises ex_hist) in
-  conn s = false /\ sup s = true /\ subs s = [(1, 2); (1, 3); (2, 3)]%N /\ lst s = [1; 2]%N
-  /\ step ex_raises s (ConnUp []) =
+  let s := fst (run ex_raises ex_acts ex_hist) in
+  conn s = false /\ sup s = true /\ subs s = [(1, 2); (1, 3); (2, 3)]%N /\ lst s = [2; 4]%N
+  /\ step ex_raises ex_acts s (ConnUp []) =
      (mkst (subs s) (lst s) true true,
-      [OSession; OCall 1 []; OCall 2 []; ORaised 2;
+      [OSession; OCall 2 []; ORaised 2; OCall 4 [];
        OPut true [(1, 2); (1, 3)]%N PutOk; OPut true [(2, 3)]%N PutOk]).
 Proof. vm_compute. repeat split. Qed.
 
 (* events: three messages (one empty, one with a repeated key) reach listeners 1 and 2 once each *)
 Example c12_nonvacuous_events :
-  let s := fst (run ex_raises (firstn 7%nat ex_hist)) in
+  let s := fst (run ex_raises ex_acts (firstn 7%nat ex_hist)) in
   conn s = true
-  /\ calls_of 2 (snd (run_from ex_raises s (map EventMsg
+  /\ calls_of 2 (snd (run_from ex_raises ex_acts s (map EventMsg
         [BRows [((1, 2)%N, 5%Z); ((1, 2)%N, 6%Z)]; BEmpty; BNonJson; BRows [((2, 2)%N, 0%Z)]])))
      = [[((1, 2)%N, 6%Z)]; [((2, 2)%N, 0%Z)]]
-  /\ calls_of 3 (snd (run ex_raises ex_hist)) = [].
+  /\ calls_of 3 (snd (run ex_raises ex_acts ex_hist)) = [].
 Proof. vm_compute. repeat split. Qed.
 
 (* fall-back: a re-subscribe cut off for aid 2 switches push off for good; an HTTP 4xx does too *)
 Example c12_nonvacuous_fallback :
-  sup (fst (run ex_raises (ex_hist ++ [ConnUp [(2%N, RDisc)]]))) = false
-  /\ In (OPut true [(2, 3)%N] PutDisc) (snd (run ex_raises (ex_hist ++ [ConnUp [(2%N, RDisc)]])))
-  /\ conn (fst (run ex_raises (ex_hist ++ [ConnUp [(2%N, RDisc)]]))) = false
-  /\ put_ids true (snd (step ex_raises (fst (run ex_raises (ex_hist ++ [ConnUp [(2%N, RDisc)]]))) (ConnUp []))) = []
-  /\ sup (fst (run ex_raises (ex_hist ++ [ConnUp [(1%N, RHttp4xx)]]))) = false
-  /\ conn (fst (run ex_raises (ex_hist ++ [ConnUp [(1%N, RHttp4xx)]]))) = true.
+  sup (fst (run ex_raises ex_acts (ex_hist ++ [ConnUp [(2%N, RDisc)]]))) = false
+  /\ In (OPut true [(2, 3)%N] PutDisc) (snd (run ex_raises ex_acts (ex_hist ++ [ConnUp [(2%N, RDisc)]])))
+  /\ conn (fst (run ex_raises ex_acts (ex_hist ++ [ConnUp [(2%N, RDisc)]]))) = false
+  /\ put_ids true (snd (step ex_raises ex_acts (fst (run ex_raises ex_acts (ex_hist ++ [ConnUp [(2%N, RDisc)]]))) (ConnUp []))) = []
+  /\ sup (fst (run ex_raises ex_acts (ex_hist ++ [ConnUp [(1%N, RHttp4xx)]]))) = false
+  /\ conn (fst (run ex_raises ex_acts (ex_hist ++ [ConnUp [(1%N, RHttp4xx)]]))) = true.
 Proof. vm_compute. repeat split; try reflexivity. repeat (first [left; reflexivity | right]). Qed.
 
 Print Assumptions state_is_sets.
@@ -197,5 +214,6 @@ Print Assumptions listener_log_exact.
 Print Assumptions event_keyed_by_aid_iid.
 Print Assumptions listener_isolation.
 Print Assumptions event_never_closes.
+Print Assumptions delivery_is_reentrancy_safe.
 Print Assumptions session_ends_only_by_drop.
 Print Assumptions empty_and_nonjson_ignored.
